@@ -528,11 +528,27 @@ type SV struct {
 func (v SV) gallina() string {
 	switch v.K {
 	case "i":
-		return lib.App("VInt", lib.Z(v.I))
+		if v.I < 0 { // the cases files open Z_scope
+			return fmt.Sprintf("(VInt (%d))", v.I)
+		}
+		return fmt.Sprintf("(VInt %d)", v.I)
 	case "t":
-		return lib.App("VText", lib.Str(v.S))
+		q := lib.Str(v.S) // vt takes its argument in string scope
+		return "(vt " + strings.TrimSuffix(q, "%string") + ")"
 	}
 	return "VNull"
+}
+// gCols: column names as one comma-separated string, split again by C11_Check.cols
+func gCols(cs []string) string {
+	if len(cs) == 0 {
+		return "[]"
+	}
+	for _, c := range cs {
+		if strings.ContainsAny(c, ",\"") {
+			panic("column name " + c)
+		}
+	}
+	return "(cols \"" + strings.Join(cs, ",") + "\")"
 }
 func gSVs(vs []SV) string { return lib.ListOf(vs, SV.gallina) }
 
@@ -542,7 +558,7 @@ type RowV struct {
 	Vals []SV  `json:"vals"`
 }
 
-func gRowV(r RowV) string { return lib.Pair(lib.Z(r.UID), gSVs(r.Vals)) }
+func gRowV(r RowV) string { return fmt.Sprintf("(%d, %s)", r.UID, gSVs(r.Vals)) }
 
 // svOfRaw: a raw SQL value; deleted_at is reduced to NULL / set (timestamps are not compared).
 func svOfRaw(col string, raw interface{}) SV {
@@ -672,8 +688,13 @@ func (e *Env) dumpJoinRows(rel Rel) ([]string, [][]SV) {
 // fillRows records, for the records objs gorm attached / returned for relation r: the columns of the
 // related model, the stored rows with the uids these records carry, and what the records hold in memory.
 func (e *Env) fillRows(o *Obs, f *Fam, r Rel, alias string, objs []reflect.Value) {
-	o.Cols = append([]string{}, schemaOf(e.db, f.Mod[r.Child]).DBNames...)
 	o.Alias = alias
+	o.Cols, o.Rows, o.Recs, o.JCols, o.JRows = []string{}, []RowV{}, []RowV{}, []string{}, [][]SV{}
+	e.rowN++
+	if e.sample && o.Mode != "MJoins" && !(o.Mode == "MAssocFind" && r.M2M) && e.rowN%3 != 0 {
+		return
+	}
+	o.Cols = append([]string{}, schemaOf(e.db, f.Mod[r.Child]).DBNames...)
 	seen := map[string]bool{}
 	var uids []int64
 	o.Recs = []RowV{}
@@ -688,6 +709,9 @@ func (e *Env) fillRows(o *Obs, f *Fam, r Rel, alias string, objs []reflect.Value
 		if !containsI(uids, rec.UID) {
 			uids = append(uids, rec.UID)
 		}
+	}
+	if len(o.Recs) == 0 { // nothing attached: nothing to compare
+		o.Cols = []string{}
 	}
 	o.Rows = e.dumpRowsOf(f, r.Child, uids)
 	o.JCols, o.JRows = []string{}, [][]SV{}
@@ -779,7 +803,7 @@ func (o Obs) term() string {
 		lib.ListOf(o.joins, func(j JoinRow) string { return lib.Pair(gKey(j.L), gKey(j.R)) }),
 		lib.ListOf(o.Att, lib.ZList), lib.Z(o.Err),
 		lib.Bool(o.Nested), o.hop2.gallina(), lib.ListOf(o.child2, ChildRow.gallina), att2,
-		lib.ListOf(o.Cols, lib.Str), lib.ListOf(o.Rows, gRowV), lib.ListOf(o.JCols, lib.Str), lib.ListOf(o.JRows, gSVs),
+		gCols(o.Cols), lib.ListOf(o.Rows, gRowV), gCols(o.JCols), lib.ListOf(o.JRows, gSVs),
 		lib.Str(o.Alias), lib.ListOf(o.Recs, gRowV))
 }
 
@@ -788,6 +812,11 @@ func (o Obs) term() string {
 type Env struct {
 	db  *gorm.DB
 	sql *sql.DB
+	// targeted and random streams: the whole-row data of the one-table queries (Preload, has-kind Find) is
+	// recorded for every third observation only (size of the Coq terms); Joins and many2many Find, the
+	// corpus and replays always carry it
+	sample bool
+	rowN   int
 }
 
 func (e *Env) reset(f *Fam) {
@@ -2784,6 +2813,7 @@ func main() {
 			out.Count("unscoped", fmt.Sprint(in.Unscoped))
 			out.Count("dup_parents", fmt.Sprint(in.Dup))
 			out.Count("error", fmt.Sprint(o.Err))
+			out.Count("records_compared_column_for_column", fmt.Sprint(len(o.Recs) > 0))
 			out.Count("formerly_failing_shape", s)
 		}
 		if len(obs) == 0 {
@@ -2799,11 +2829,12 @@ func main() {
 	for _, fpath := range lib.CorpusFiles(a.Corpus) {
 		add("corpus", readInput(fpath))
 	}
+	env.sample = true
 	for _, in := range targetedInputs() {
 		add("targeted", in)
 	}
 	r := lib.NewRng(a.Seed)
-	budget := 1500
+	budget := 1350
 	if a.Tier == "thorough" {
 		budget = 12000
 		for _, in := range sweepInputs() {
@@ -2822,6 +2853,6 @@ func main() {
 		}
 		add(kind, in)
 	}
-	out.Extra["rule"] = "cases = data graph over one of 8 model families (keys: uint, string, (string,string), (int64,string), (string,int64), (int64,string) with sql.Null* foreign keys, []byte, uint by gorm's naming conventions without foreignKey/references tags) x relation {has_one, has_many, belongs_to, many2many (also through non-primary columns, and with keys of DIFFERENT lengths on the two sides: 1/2 and 2/1 columns), polymorphic, self belongs_to, self has_many} x {Preload single / nested / clause.Associations / with inline or scope conditions / a named preload with its own conditions combined with clause.Associations carrying conditions or an Unscoped scope (both orders) / the same destination loaded again after rows were soft-deleted or with other conditions, association Joins / InnerJoins without and with ON conditions passed as *gorm.DB, join paths of two and three relations joined by the longest path only / with Joins(Rel) / with every prefix (+nested preload below the first or the second joined relation), Association().Find} x Unscoped x parent shape {struct, slice, slice of pointers} x duplicated parents; key strings include separators, the text nil and the empty string, numeric key parts include 0 (also as the LAST part of a composite key of a struct-shaped parent: deterministic 'targeted' stream in every tier), foreign keys include NULL and partly NULL tuples, children include soft-deleted rows (at every level of a joined + nested-preload path, read with and without Unscoped); the inputs of the four defects fixed in /repo (separator / nil / zero key collisions, empty composite IN) are replayed from corpus/C11 first and occur in the random streams and the sweep like any other input; distinct = distinct (family, relation, mode, path, conditions, shape, table sizes, flags) shapes; non-trivial = at least one child attached and either two parents with different non-empty attachments or a child row of the table attached to nobody"
+	out.Extra["rule"] = "cases = data graph over one of 8 model families (keys: uint, string, (string,string), (int64,string), (string,int64), (int64,string) with sql.Null* foreign keys, []byte, uint by gorm's naming conventions without foreignKey/references tags) x relation {has_one, has_many, belongs_to, many2many (also through non-primary columns, with keys of DIFFERENT lengths on the two sides: 1/2 and 2/1 columns, and through a join MODEL of its own (SetupJoinTable) whose surrogate id / key-named / data columns are named like columns of the related model and carry other rows' values), polymorphic, self belongs_to, self has_many} x {Preload single / nested / clause.Associations / with inline or scope conditions / a named preload with its own conditions combined with clause.Associations carrying conditions or an Unscoped scope (both orders) / the same destination loaded again after rows were soft-deleted or with other conditions, association Joins / InnerJoins without and with ON conditions passed as *gorm.DB, join paths of two and three relations joined by the longest path only / with Joins(Rel) / with every prefix (+nested preload below the first or the second joined relation), Association().Find} x Unscoped x parent shape {struct, slice, slice of pointers} x duplicated parents; key strings include separators, the text nil and the empty string, numeric key parts include 0 (also as the LAST part of a composite key of a struct-shaped parent: deterministic 'targeted' stream in every tier), foreign keys include NULL and partly NULL tuples, children include soft-deleted rows (at every level of a joined + nested-preload path, read with and without Unscoped); the inputs of the four defects fixed in /repo (separator / nil / zero key collisions, empty composite IN) are replayed from corpus/C11 first and occur in the random streams and the sweep like any other input; besides the uids, every attached / returned record is read back column for column and compared with the stored row of its uid and with the model of SELECT list + Scan (always for Joins, many2many Find, corpus and replays; every third observation of the one-table queries); distinct = distinct (family, relation, mode, path, conditions, shape, table sizes, flags) shapes; non-trivial = at least one child attached and either two parents with different non-empty attachments or a child row of the table attached to nobody"
 	lib.Must(out.Flush())
 }
